@@ -69,6 +69,29 @@ Guards(col, crit, sp) ==
 GuardsSum(col, crit, sp) ==
      IF crit.operand.k = "text" /\ BoolWord(crit.operand.c) # "-" /\ crit.op = "EQ" /\ \E i \in 1..Len(col) : col[i].k = "bool" /\ Accepts(crit, col[i]) = "yes"
      THEN {"C12-F4"} ELSE {}
+\* ---- deviation model of the open findings: what the EMITTED criterion callable answers ("yes" / "no" / "raise") ----
+\* Every function reads a blank of a criteria range as the number 0; SUMIFS / AVERAGEIFS (cast = TRUE) also turn truth values into
+\* 1 / 0 before the criterion is applied, the others compare a truth value like Python does (TRUE == 1, str(TRUE) = "True").
+\* A criterion is classified when the formula is translated: only a literal "<op><number>", op & cell, a plain value and a literal
+\* with an active wildcard get their meaning; every other text is compared as it stands, case-insensitively.
+IsNumLike(cell) == cell.k \in {"num", "blank", "bool"}
+AsQ(cell) == IF cell.k = "num" THEN cell.q ELSE IF cell.k = "bool" /\ cell.b THEN 4 ELSE 0
+PlainEq(cell, t, cast) == \/ cell.k = "text" /\ LowerSeq(cell.c) = LowerSeq(t)
+                          \/ cell.k = "bool" /\ ~cast /\ LowerSeq(t) = (IF cell.b THEN <<116, 114, 117, 101>> ELSE <<102, 97, 108, 115, 101>>)
+ImplAccepts(crit, cell, sp, cast) ==
+  LET o == crit.operand IN
+  IF o.k = "num" THEN
+       IF sp \in {"value", "valuecell"} THEN YN(IsNumLike(cell) /\ AsQ(cell) = o.q)
+       ELSE IF sp \in {"oplit", "opcat"} THEN
+            IF IsNumLike(cell) THEN YN(NumCmp(crit.op, AsQ(cell), o.q))
+            ELSE IF crit.op = "NE" THEN "yes" ELSE IF crit.op = "EQ" THEN "no" ELSE "raise"
+       ELSE "no"                                  \* "=5", a cell holding ">5": compared as the text it is
+  ELSE IF sp = "value" /\ crit.op = "EQ" THEN
+            IF ActiveWildcard(o.c) THEN YN(cell.k = "text" /\ TextEq(o.c, cell.c))
+            ELSE YN(PlainEq(cell, o.c, cast))
+       ELSE IF sp = "valuecell" /\ crit.op = "EQ" THEN YN(PlainEq(cell, o.c, cast))
+       ELSE "no"                                  \* "=x", "<>x", a cell holding them
+ImplVerdicts(col, crit, sp, cast) == [i \in 1..Len(col) |-> ImplAccepts(crit, col[i], sp, cast)]
 RECURSIVE SumOver(_, _)
 SumOver(S, tq) == IF S = {} THEN 0 ELSE LET i == CHOOSE x \in S : TRUE IN (IF tq[i].k = "num" THEN tq[i].q ELSE 0) + SumOver(S \ {i}, tq)
 =============================================================================
